@@ -1,4 +1,5 @@
 import VelaVerif.Lemmas.SrcNpuAccess
+import VelaVerif.Lemmas.SrcCalcBlockdep
 /-!
 # C04 (source tie) — translated `numeric_util.round_up` / `round_up_divide` / `overlaps` equal the
 helpers of `Model/NpuAccess.lean`
@@ -113,5 +114,59 @@ theorem src_range_lists_overlap_eq_model (l1 l2 : List (Option ARange)) :
     range_lists_overlap (l1.map SrcNpuAccess.pyOAR) (l2.map SrcNpuAccess.pyOAR) =
       .ok (rangeListsOverlap (l1.filterMap id) (l2.filterMap id)) :=
   SrcNpuAccess.rlo l1 l2
+
+/-! ## `calc_blockdep` itself
+
+The callees that take operation objects are *opaque functions* of the translated definition (parameters applied at
+each call site): `get_address_ranges(fm)` (three feature maps), `has_ifm2(npu_op)`, `get_ifm_ofm_block_depth(arch, npu_op)`,
+`get_first_job_input_volume(.., ifm_block_depth, .., forward_offset)`, `get_prev_job_output_volume(.., block_offset)`,
+`intersects(overlapping_fm, .., prev_op.ofm, ..)`.  What the theorems compare is `calc_blockdep`'s own control flow —
+the `None` / LUT / overlap early returns, `range_lists_overlap` on the three range lists, the IFM2 broadcast test, the
+two nested `for … in range(MAX_BLOCKDEP)` loops with their `break`s, `min(blockdep, elapsed + outstanding)`, the job
+accumulation — against `Blockdep.calcBlockdep`, for anything the opaque functions return that behaves like the model's
+functions (`SrcCalcBlockdep.OpaqueOk`; the volume functions are tied to the source in `Props/C06Src.lean`, the address
+ranges above).  Not covered: the selection `overlapping_fm = npu_op.ifm if ifm_overlaps else npu_op.ifm2` and the
+construction of the rectangles / blocks / kernel handed to the opaque functions (records: not values of the fragment). -/
+
+/-- no previous operation: 0 -/
+theorem src_calc_blockdep_no_prev_eq_model (a : Gen.AccRow) (op : BlockOp) (banks d1 h1 w1 d2 h2 w2 : Num)
+    (b1 b2 b3 b4 b5 b6 b7 b8 : Bool) (r1 r2 r3 : M (List (Option (Num × Num × Num)))) (hi : M Bool) (ibd : M Num)
+    (fin : Num → Num → M (Option SrcCalcBlockdep.Vol)) (fout : Num → M (Option SrcCalcBlockdep.Vol))
+    (fhit : (Num × Num × Num) → (Num × Num × Num) → (Num × Num × Num) → (Num × Num × Num) → M Bool) :
+    SrcCalcBlockdep.RelNat (calc_blockdep banks d1 h1 w1 d2 h2 w2 b1 b2 b3 b4 b5 true b6 b7 b8 r1 r2 hi r3 ibd fin fout fhit)
+      (Blockdep.calcBlockdep a none op) := by
+  unfold calc_blockdep
+  simp only [if_true]
+  exact rfl
+
+/-- `calc_blockdep(arch, prev_op, npu_op)` with a previous operation: for every accelerator row, every pair of
+    operations the model classifies (`classify ≠ none`), every list of ranges (with `None` entries) whose non-`None`
+    entries are the model's address ranges, every outcome of the opaque volume / intersection functions that agrees
+    with the model's (`OpaqueOk`): the translated function raises when the model says `none` and returns the model's
+    block dependency otherwise -/
+theorem src_calc_blockdep_eq_model (a : Gen.AccRow) (prev op : BlockOp) (lp li l2 : List (Option ARange))
+    (hlp : lp.filterMap id = getAddressRanges prev.ofm)
+    (hli : li.filterMap id = getAddressRanges op.ifm)
+    (hl2 : ∀ f2, op.ifm2 = some f2 → l2.filterMap id = getAddressRanges f2)
+    (s2 : Shape3) (hs2 : ∀ f2, op.ifm2 = some f2 → f2.shape = s2)
+    (pan plt can clt : Bool) (hp : (!pan && plt) = prev.usesLut) (hc : (!can && clt) = op.usesLut)
+    (ibd : M Num) (fin : Num → Num → M (Option SrcCalcBlockdep.Vol)) (fout : Num → M (Option SrcCalcBlockdep.Vol))
+    (fhit : (Num × Num × Num) → (Num × Num × Num) → (Num × Num × Num) → (Num × Num × Num) → M Bool)
+    (hctx : SrcCalcBlockdep.OpaqueOk a prev op ibd fin fout fhit)
+    (hcl : Blockdep.classify a (some prev) op ≠ none) :
+    SrcCalcBlockdep.RelNat
+      (calc_blockdep (.py a.shramReservedUnusedBanks) (.py op.ifm.shape.depth) (.py op.ifm.shape.height)
+        (.py op.ifm.shape.width) (.py s2.depth) (.py s2.height) (.py s2.width) can clt false op.ifm2.isNone false false
+        pan plt false (.ok (lp.map SrcNpuAccess.pyOAR)) (.ok (li.map SrcNpuAccess.pyOAR)) (.ok (hasIfm2 op))
+        (.ok (l2.map SrcNpuAccess.pyOAR)) ibd fin fout fhit)
+      (Blockdep.calcBlockdep a (some prev) op) :=
+  SrcCalcBlockdep.calc_blockdep_sim a prev op lp li l2 hlp hli hl2 s2 hs2 pan plt can clt hp hc ibd fin fout fhit hctx hcl
+
+/-- non-vacuous: for every accelerator row and pair of operations there are opaque functions that satisfy `OpaqueOk`
+    (the model's own, encoded), and every list of ranges is a list "with `None` entries" of itself -/
+example (a : Gen.AccRow) (prev op : BlockOp) :
+    (∃ ibd fin fout fhit, SrcCalcBlockdep.OpaqueOk a prev op ibd fin fout fhit) ∧
+    ((getAddressRanges prev.ofm).map some).filterMap id = getAddressRanges prev.ofm :=
+  ⟨SrcCalcBlockdep.opaqueOk_inhabited a prev op, by simp [List.filterMap_map]⟩
 
 end VelaVerif.Props.C04Src
